@@ -10,7 +10,7 @@ use std::os::unix::fs::MetadataExt;
 
 pub static DEF: PropDef = PropDef {
     id: "C13",
-    rule: "random: one directory holding every creatable type (regular empty/non-empty, directory empty/non-empty, fifo, socket, hard-linked pair, symlinks to each of those, dangling link), each with a random 12-bit mode and uid/gid from {0,1,65534,54321} (lchown for links) x follow mode x {entries as starting points (depth 0), one level down} x ~14 tests per tree drawn from -type/-xtype t, -perm M|-M|/M in octal and six symbolic spellings (per-class '=', additive chains, who-less clauses, subtractive 'a=rwx,o-w', copying 'g=u,o=g', overriding 'a=rwx,u=..'; s/t bits; conditional 'X' as in a+X, u=rwX, u+x,go+X), -links/-inum/-uid/-gid [+-]N around real values, -user/-group by name and number, -empty, -samefile F for every F, -lname. Oracle: predicate over lstat/stat records chosen per the statement. Exhaustive -perm sub-run: a directory of 4096 regular files, one per permission value; each operand is evaluated against ALL modes (operands: 300 random x 3 forms in quick, all 4096 x 3 in thorough), octal and symbolic spellings must select identical sets. Non-trivial = the entry set contains a link whose lstat and stat records differ in the tested attribute and the test is evaluated on it (always true for the generated directory), and >= 1 entry is selected and >= 1 rejected. Distinct = distinct case JSON.",
+    rule: "random: one directory holding every creatable type (regular empty/non-empty, directory empty/non-empty, fifo, socket, hard-linked pair, symlinks to each of those, dangling link), each with a random 12-bit mode and uid/gid from {0,1,65534,54321} (lchown for links) x follow mode (1 case in 5 preceded by another follow option, which it overrides) x {entries as starting points (depth 0), one level down} x ~14 tests per tree drawn from -type/-xtype t, -perm M|-M|/M in octal and six symbolic spellings (per-class '=', additive chains, who-less clauses, subtractive 'a=rwx,o-w', copying 'g=u,o=g', overriding 'a=rwx,u=..'; s/t bits; conditional 'X' as in a+X, u=rwX, u+x,go+X), -links/-inum/-uid/-gid [+-]N around real values, -user/-group by name and number, -empty, -samefile F for every F, -lname. Oracle: predicate over lstat/stat records chosen per the statement. Exhaustive -perm sub-run: a directory of 4096 regular files, one per permission value; each operand is evaluated against ALL modes (operands: 300 random x 3 forms in quick, all 4096 x 3 in thorough), octal and symbolic spellings must select identical sets. Non-trivial = the entry set contains a link whose lstat and stat records differ in the tested attribute and the test is evaluated on it (always true for the generated directory), and >= 1 entry is selected and >= 1 rejected. Distinct = distinct case JSON.",
     assumptions: &["the harness runs as root (chmod keeps all twelve bits, chown to ids without passwd entries works)", "who-less symbolic clauses (=rx, +x) mean 'a' - the process umask is not consulted (POSIX find / GNU find)"],
     run,
     replay,
@@ -29,6 +29,10 @@ pub struct Case {
     pub follow: u8,
     pub depth0: bool,
     pub tests: Vec<Test>,
+    /// 0: the follow option alone; 1, 2: preceded by one of the two other follow options, which the
+    /// later one overrides
+    #[serde(default)]
+    pub earlier_flag: u8,
 }
 
 const IDS: &[u32] = &[0, 1, 65534, 54321];
@@ -222,7 +226,7 @@ pub fn gen_case(g: &mut Gen) -> Case {
         };
         tests.push(Test { tokens: t });
     }
-    Case { tree: TreeSpec { nodes }, follow, depth0, tests }
+    Case { tree: TreeSpec { nodes }, follow, depth0, tests, earlier_flag: if g.chance(1, 5) { g.usize_in(1, 2) as u8 } else { 0 } }
 }
 
 fn cmp_num(op: &str, value: u64) -> bool {
@@ -416,7 +420,12 @@ pub fn check(ctx: &mut Ctx, c: &Case) -> Outcome {
         let expected: Vec<String> = entries.iter().filter(|e| job.iter().all(|tokens| predicate(tokens, e, fm))).map(|e| e.path.clone()).collect();
         let tokens: Vec<String> = job.iter().flatten().cloned().collect();
         let sig_name = if job.len() == 1 { job[0][0].clone() } else { format!("{}-after-{}", job[1][0], job[0][0]) };
-        let mut args: Vec<String> = vec![fm.flag().into()];
+        let mut args: Vec<String> = vec![];
+        if c.earlier_flag > 0 {
+            let others: Vec<&str> = ["-P", "-H", "-L"].into_iter().filter(|f| *f != fm.flag()).collect();
+            args.push(others[(c.earlier_flag as usize - 1) % 2].into());
+        }
+        args.push(fm.flag().into());
         if c.depth0 {
             let mut v = children.clone();
             v.sort();
